@@ -36,13 +36,14 @@ def main(run):
 
 
 def replay(run, path):
-    j = json.load(open(path))
-    rp = j.get("replay") or {}
+    """also the replay of the T03 stage inside C07 (run.prop is the host then): common.replay_begin"""
+    j, rp = replay_load(path)
+    if "theorem_file" in rp and "case" not in rp:
+        return replay_theorem(run, path, j, rp)
     print(j.get("what"))
     c = rp.get("case")
-    if not c:
-        print(json.dumps(j, indent=1, ensure_ascii=False)[:6000])
-        return 0
+    if not (isinstance(c, dict) and all(k in c for k in ('text', 'off', 'strict'))):
+        return replay_print(j)
     print("price file: %r\njournal zone %+d min, default time %s, strict %s, chart %s, report commodity %s" %
           (c["text"], c["off"], [c["dsec"], c["dns"]], c["strict"], c["comms"], c["rc"]))
     print("then:  implementation %s\n       model          %s" % (json.dumps(rp.get("implementation_data_base"), ensure_ascii=False),
@@ -53,10 +54,7 @@ def replay(run, path):
     st = T.new_stats()
     T.check_cases(run, [c], st)
     for what, rep, found in run.violations:
-        print("REPRODUCED: %s%s" % (what, "" if found else " (no failing input: correspondence only)"))
         print("now:   implementation %s\n       model          %s" % (json.dumps(rep.get("implementation_data_base"), ensure_ascii=False),
                                                                      json.dumps(rep.get("model_data_base"), ensure_ascii=False)))
-    if not run.violations:
-        print("not reproduced: model and implementation agree now (compared=%d, accepted=%d, rejected=%d, canonical text reloaded=%d)"
-              % (st["compared"], st["accepted"], st["rejected"], st["canonical_reloaded"]))
-    return 1 if run.violations else 0
+    return replay_verdict(run, path, j, "T03 stage: model and implementation read the price file alike now (compared=%d, accepted=%d, rejected=%d, "
+                                        "canonical text reloaded=%d)" % (st["compared"], st["accepted"], st["rejected"], st["canonical_reloaded"]))
